@@ -19,6 +19,50 @@ var c15Patterns = []string{
 }
 var c15Subjects = []string{"", "a", "A", "ab", "ba", "b", "abc", "ABC", "a ", " a", "aa", "12", "x", "Ab", "cab"}
 
+// variants adds, for every base pattern, the variants under which a wrongly normalised cache key would collide with it
+// although the expressions differ: swapped case (\d <-> \D, \pL <-> \pl), flag prefixes, added whitespace / anchors.
+func patternVariants(base []string) []string {
+	swap := func(s string) string {
+		b := []byte(s)
+		for i, c := range b {
+			switch {
+			case c >= 'a' && c <= 'z':
+				b[i] = c - 32
+			case c >= 'A' && c <= 'Z':
+				b[i] = c + 32
+			}
+		}
+		return string(b)
+	}
+	seen := map[string]bool{}
+	var out []string
+	add := func(p string) {
+		if !seen[p] {
+			seen[p] = true
+			out = append(out, p)
+		}
+	}
+	for _, p := range base {
+		add(p)
+		add(swap(p))
+		add("(?i)" + p)
+		add("(?i)" + swap(p))
+		add(p + " ")
+		add(" " + p)
+		add("^" + p)
+		add(p + "$")
+		add("(?s)" + p)
+	}
+	return out
+}
+
+var c15Bases = []string{"a", "ab", `\d+`, `\pL+`, "[a-c]+", "^a.", `\w\W`, `x\b`}
+
+func init() {
+	c15Patterns = append(c15Patterns, patternVariants(c15Bases)...)
+	c15Subjects = append(c15Subjects, "1", "a1", "é", "A B", "ab ", "x y")
+}
+
 func stdExpect(pattern, subject string) (bool, bool) {
 	re, err := regexp.Compile(pattern)
 	if err != nil {
@@ -40,6 +84,13 @@ func genC15(seed uint64) *Scenario {
 	pats := make([]string, 0, np)
 	for i := 0; i < np; i++ {
 		pats = append(pats, pick(r, c15Patterns))
+	}
+	if r.Chance(500) {
+		// a base pattern together with some of its near-collision variants
+		vs := patternVariants([]string{pick(r, c15Bases)})
+		for i := 0; i < r.Range(2, 4); i++ {
+			pats = append(pats, pick(r, vs))
+		}
 	}
 	uid := uint32(0)
 	// swarm knob: some runs use more distinct patterns than any plausible bound of the cache (eviction paths)
